@@ -190,11 +190,19 @@ class HarnessGen:
         w.close()
 
     # ------------------------------------------------------------------ C06 inheritance coherence
-    def h_c06d(self, w: W, P: str, L: int):
+    def h_c06s(self, w: W, P: str, L: int):
+        """specialize() only (the cheaper half of c06d)"""
+        self.h_c06d(w, P, L, name='c06s', with_try=False)
+
+    def h_c06t(self, w: W, P: str, L: int):
+        """Child::try_from(&parent) only"""
+        self.h_c06d(w, P, L, name='c06t', with_spec=False)
+
+    def h_c06d(self, w: W, P: str, L: int, name='c06d', with_spec=True, with_try=True):
         """specialize() and Child::try_from(&parent) against the constraint oracle, parents decoded from all bytes"""
         kids = self.m.children(P)
         w(f'#[kani::proof]\n#[kani::unwind({self.unwind(L)})]')
-        w.open(f'fn c06d_{P}() {{')
+        w.open(f'fn {name}_{P}() {{')
         w(f'let data: [u8; {L}] = kani::any();')
         w('let n: usize = kani::any();')
         w(f'kani::assume(n <= {L});')
@@ -205,14 +213,15 @@ class HarnessGen:
         w(f'let (which, parse_ok) = ref_spec_{P}(&rr.v);')
         w('kani::assume(which != -2);')
         w('kani::cover!(which >= 0 && parse_ok, "accepting path");')
-        w.open('match p.specialize() {')
-        for k, X in enumerate(kids):
-            w(f'Ok({P}Child::{X}(c)) => {{ assert!(which == {k} && parse_ok, "C06: specialize returns a child whose constraints or payload do not match"); '
-              f'assert!(eq_{X}(&c, &ref_try_{P}_{X}(&rr.v).2), "C06: specialized child has different field values"); std::mem::forget(c); }}')
-        w(f'Ok({P}Child::None) => {{ assert!(which == -1, "C06: specialize returns None although a child matches"); }}')
-        w('Err(e) => { assert!(which >= 0 && !parse_ok, "C06: specialize fails although no child matches or the payload parses"); std::mem::forget(e); }')
-        w.close()
-        for k, X in enumerate(kids):
+        if with_spec:
+            w.open('match p.specialize() {')
+            for k, X in enumerate(kids):
+                w(f'Ok({P}Child::{X}(c)) => {{ assert!(which == {k} && parse_ok, "C06: specialize returns a child whose constraints or payload do not match"); '
+                  f'assert!(eq_{X}(&c, &ref_try_{P}_{X}(&rr.v).2), "C06: specialized child has different field values"); std::mem::forget(c); }}')
+            w(f'Ok({P}Child::None) => {{ assert!(which == -1, "C06: specialize returns None although a child matches"); }}')
+            w('Err(e) => { assert!(which >= 0 && !parse_ok, "C06: specialize fails although no child matches or the payload parses"); std::mem::forget(e); }')
+            w.close()
+        for k, X in enumerate(kids if with_try else []):
             w(f'let t{k} = ref_try_{P}_{X}(&rr.v);')
             w.open(f'match {X}::try_from(&p) {{')
             w(f'Ok(c) => {{ assert!(t{k}.0 && t{k}.1, "C06: Child::try_from succeeds although a constraint is violated or the payload does not parse"); '
